@@ -1,6 +1,7 @@
 '''C10 -- equals is a content equivalence; SeriesHE / FrameHE honour the hash contract.'''
 import ast
 import itertools
+import json
 import os
 
 import numpy as np
@@ -835,9 +836,11 @@ def pair_case(ctx, stratum, kind, ra, rb, o, what, identical=False, objs=None):
     if fid and not identical:
         tags['finding'] = fid
     ctx.count(f'{kind}:{what}', f'opts:{"".join("1" if o[k] else "0" for k in OPT_KEYS)}', f'answer:{ab}')
-    desc = {'call': f'a.equals(b, **opts) and b.equals(a, **opts) with a = sfv.props.c10.build(a_recipe), b = {"a" if identical else "build(b_recipe)"}',
+    bname = 'build_tb' if kind == 'tb' else 'build'
+    desc = {'call': f'a.equals(b, **opts) and b.equals(a, **opts) with a = sfv.props.c10.{bname}(a_recipe), b = {"a" if identical else bname + "(b_recipe)"}',
             'a_recipe': ra, 'b_recipe': None if identical else rb, 'opts': o, 'differs_in': what, 'observed': {'a.equals(b)': ab, 'b.equals(a)': ba}}
-    return list(split_case(Case(stratum, desc, m=m, s=s, py_fail=py_fail, tags=tags, nontrivial=not identical)))
+    key = json.dumps([stratum, ra, None if identical else rb, o, what, objs is not None], sort_keys=True, default=str)
+    return list(split_case(Case(stratum, desc, m=m, s=s, py_fail=py_fail, tags=tags, nontrivial=not identical, key=key)))
 
 
 def split_case(c):
@@ -884,11 +887,12 @@ def kernel_tb_cases(ctx):
             ca = [('float64', ['@nan' if m else v]) for m, v in zip(ma, base)]
             cb = [('float64', ['@nan' if m else v]) for m, v in zip(mb, base)]
             for la, lb in itertools.product(lays, repeat=2):
-                for sk in ((True,) if ctx.tier == 'quick' else (True, False)):
+                # without skipna the mask is not consulted: one layout of a against every layout of b is enough there
+                for sk in ((True,) if ctx.tier == 'quick' or la != lays[0] else (True, False)):
                     o = dict(DEFAULT_OPTS, skipna=sk)
                     yield from pair_case(ctx, 'kernel:tb.equals-masks-x-layouts', 'tb', tb_rec(ca, la), tb_rec(cb, lb), o, 'nan-masks')
     # (3) random multi-dtype tables: the three operand paths
-    for _ in range(ctx.n(150, 2500)):
+    for _ in range(ctx.n(150, 1800)):
         ncols = ctx.rng.randint(1, 4)
         nrows = ctx.rng.randint(0, 3)
         ca = rand_cols(ctx.rng, ncols, nrows)
@@ -958,12 +962,12 @@ def api_frame_cases(ctx):
     for o in ALL_OPTS:
         yield from pair_case(ctx, 'api:frame.equals-all-options', 'frame', fam, fam, o, 'identity', identical=True)
     # random bases x every kind of variant x random options
-    for base in base_frames(ctx, ctx.n(40, 700)):
+    for base in base_frames(ctx, ctx.n(40, 450)):
         for what, v in frame_variants(ctx.rng, base):
             yield from pair_case(ctx, 'api:frame.equals', 'frame', base, v, rand_opts(ctx.rng), what)
         yield from pair_case(ctx, 'api:frame.equals', 'frame', base, base, rand_opts(ctx.rng), 'identity', identical=True)
     # objects derived through the public interface (shared index / blocks objects)
-    for base in base_frames(ctx, ctx.n(15, 200)):
+    for base in base_frames(ctx, ctx.n(15, 120)):
         a = build(base)
         derived = [('rename', lambda f: f.rename('other'), dict(base, name='other')),
                    ('to_frame_go', lambda f: f.to_frame_go(), dict(base, cls='FrameGO')),
@@ -1001,7 +1005,7 @@ def api_series_cases(ctx):
     for what, v in series_variants(ctx.rng, fam):
         for o in ALL_OPTS:
             yield from pair_case(ctx, 'api:series.equals-all-options', 'series', fam, v, o, what)
-    for base in base_series(ctx, ctx.n(40, 700)):
+    for base in base_series(ctx, ctx.n(40, 450)):
         for what, v in series_variants(ctx.rng, base):
             yield from pair_case(ctx, 'api:series.equals', 'series', base, v, rand_opts(ctx.rng), what)
         yield from pair_case(ctx, 'api:series.equals', 'series', base, base, rand_opts(ctx.rng), 'identity', identical=True)
@@ -1047,13 +1051,13 @@ def api_index_cases(ctx):
         for what, v in index_variants(ctx.rng, fam):
             for o in ALL_OPTS:
                 yield from pair_case(ctx, 'api:index.equals-all-options', 'index', fam, v, o, what)
-    bases = list(base_indexes(ctx, ctx.n(50, 800)))
+    bases = list(base_indexes(ctx, ctx.n(50, 500)))
     for base in bases:
         for what, v in index_variants(ctx.rng, base):
             yield from pair_case(ctx, 'api:index.equals', 'index', base, v, rand_opts(ctx.rng), what)
         yield from pair_case(ctx, 'api:index.equals', 'index', base, base, rand_opts(ctx.rng), 'identity', identical=True)
     # flat against hierarchical, and unrelated pairs
-    for _ in range(ctx.n(20, 300)):
+    for _ in range(ctx.n(20, 200)):
         ra, rb = ctx.rng.choice(bases), ctx.rng.choice(bases)
         yield from pair_case(ctx, 'api:index.equals', 'index', ra, rb, rand_opts(ctx.rng), 'unrelated')
 
@@ -1061,7 +1065,7 @@ def api_index_cases(ctx):
 def api_bus_cases(ctx):
     import copy
     rng = ctx.rng
-    for _ in range(ctx.n(12, 150)):
+    for _ in range(ctx.n(12, 100)):
         frames = []
         for k, f in enumerate(base_frames(ctx, rng.randint(1, 3))):
             f['name'] = 'f%d' % k
@@ -1152,7 +1156,8 @@ def he_case(ctx, kind, ra, rb, what, identical=False):
     ctx.count(f'he-{kind}:{what}', f'he-answer:{obs["a == b"]}')
     desc = {'call': 'a == b, b == a, a != b, b != a, hash(a) == hash(b), len({a, b}), b in {a: 0}; a = sfv.props.c10.build(a_recipe)', 'a_recipe': ra,
             'b_recipe': None if identical else rb, 'differs_in': what, 'observed': obs}
-    return list(split_case(Case('api:he-' + kind, desc, m=m, s=s, py_fail=py_fail, tags=tags, nontrivial=not identical)))
+    key = json.dumps(['he', kind, ra, None if identical else rb, what], sort_keys=True, default=str)
+    return list(split_case(Case('api:he-' + kind, desc, m=m, s=s, py_fail=py_fail, tags=tags, nontrivial=not identical, key=key)))
 
 
 def api_he_cases(ctx):
@@ -1168,14 +1173,14 @@ def api_he_cases(ctx):
     yield from he_case(ctx, 'series', a, copy.deepcopy(a), 'hierarchical-index')
     f = fr_rec([('int64', [1, 2])], index=ix_rec([['a', 1], ['a', 2]], cls='IndexHierarchy'), cls='FrameHE')
     yield from he_case(ctx, 'frame', f, copy.deepcopy(f), 'hierarchical-index')
-    for base in base_series(ctx, ctx.n(40, 500)):
+    for base in base_series(ctx, ctx.n(40, 300)):
         base['cls'] = 'SeriesHE'
         for what, v in series_variants(ctx.rng, base):
             if what == 'class':
                 continue          # a plain Series has no hash; HE == non-HE is covered by the equals strata (class variants)
             yield from he_case(ctx, 'series', base, v, what)
         yield from he_case(ctx, 'series', base, base, 'identity', identical=True)
-    for base in base_frames(ctx, ctx.n(30, 400)):
+    for base in base_frames(ctx, ctx.n(30, 250)):
         base['cls'] = 'FrameHE'
         for what, v in frame_variants(ctx.rng, base):
             if what == 'class':
@@ -1188,7 +1193,7 @@ def api_he_cases(ctx):
 def triple_cases(ctx):
     import copy
     rng = ctx.rng
-    for base in base_frames(ctx, ctx.n(40, 600)):
+    for base in base_frames(ctx, ctx.n(40, 400)):
         vs = frame_variants(rng, base)
         # chains of "harmless" differences (layout, dtype, copy) and one harmful one
         pool = [v for w, v in vs if w in ('copy', 'layout', 'dtype', 'class', 'index-class')]
@@ -1216,7 +1221,7 @@ def triple_cases(ctx):
         ctx.count('triple')
         yield Case('api:frame.equals-triples', {'call': 'x_i.equals(x_j, **opts) for all ordered pairs; x_i = sfv.props.c10.build(recipes[i])', 'recipes': recs, 'opts': o,
                                               'observed': {f'x{i}.equals(x{j})': v for (i, j), v in ans.items()}},
-                   py_fail=py_fail, tags=tags)
+                   py_fail=py_fail, tags=tags, key=json.dumps(['triple', recs, o], sort_keys=True, default=str))
 
 
 # ---- malformed: other is not a container of the same kind
@@ -1236,14 +1241,16 @@ def malformed_cases(ctx):
                 text, _ = lit.res(lambda: a.equals(other, **o), lambda r: lit.b(bool(r)))
                 ctx.count('malformed:other-kind')
                 yield Case('malformed:other-kind', {'call': f'{ka}.equals({ko}, **opts)', 'opts': o, 'observed': text},
-                           py_fail=None if text == '(Ok false)' else f'{ka}.equals({ko}) -> {text}, expected False', tags={'kind': 'malformed'}, nontrivial=True)
+                           py_fail=None if text == '(Ok false)' else f'{ka}.equals({ko}) -> {text}, expected False', tags={'kind': 'malformed'}, nontrivial=True,
+                           key=json.dumps(['malformed', ka, ko, o], sort_keys=True))
     for (ka, a) in things:
         for other in others:
             for o in (DEFAULT_OPTS, dict(DEFAULT_OPTS, compare_class=True)):
                 text, _ = lit.res(lambda: a.equals(other, **o), lambda r: lit.b(bool(r)))
                 ctx.count('malformed:non-container')
                 yield Case('malformed:non-container', {'call': f'{ka}.equals({type(other).__name__} object, **opts)', 'opts': o, 'observed': text},
-                           py_fail=None if text == '(Ok false)' else f'{ka}.equals({type(other).__name__}) -> {text}, expected False', tags={'kind': 'malformed'})
+                           py_fail=None if text == '(Ok false)' else f'{ka}.equals({type(other).__name__}) -> {text}, expected False', tags={'kind': 'malformed'},
+                           key=json.dumps(['malformed', ka, type(other).__name__, repr(other)[:40], o], sort_keys=True))
 
 
 def cases(ctx):
